@@ -72,7 +72,7 @@ func (f Fault) String() string {
 		return fmt.Sprintf("call#%d depth-limit=%d", f.Call, f.Limit)
 	case FTickIntr, FAsyncIntr:
 		if f.Split > 0 {
-			return fmt.Sprintf("call#%d %s@tick%d(suspended for %d instructions before its lock acquisition)", f.Call, faultNames[f.Kind], f.At, f.Split)
+			return fmt.Sprintf("call#%d %s@tick%d(suspended inside Interrupt() at its synchronisation point #%d for %d instructions)", f.Call, faultNames[f.Kind], f.At, 1+(f.Split-1)%2, 1+(f.Split-1)/2)
 		}
 		return fmt.Sprintf("call#%d %s@tick%d(x%d)", f.Call, faultNames[f.Kind], f.At, 1+f.Limit)
 	}
@@ -148,13 +148,14 @@ func (h *Host) tick() {
 		h.fire()
 		h.intrVal = h.wdPayload[0]
 		if f.Split > 0 && syncPointsBuilt {
-			// the interrupting goroutine is descheduled INSIDE Interrupt(), right before it takes the lock; the VM runs
-			// on for f.Split instructions, then Interrupt() completes
-			h.wd[0].arm()
+			// the interrupting goroutine is descheduled INSIDE Interrupt(), at its first or second synchronisation point
+			// outside the lock (lock acquisition, atomic store); the VM runs on for a few instructions, then Interrupt() completes
+			h.wd[0].arm(1 + (f.Split-1)%2)
 		}
 		h.wd[0].release()
+		h.wd[0].disarm()
 		if h.wd[0].isParked() {
-			h.resumeAt = h.ticks + int64(f.Split)
+			h.resumeAt = h.ticks + int64(1+(f.Split-1)/2)
 			h.splits++
 		} else if f.Limit > 0 {
 			h.intrVal = h.wdPayload[1]
@@ -178,12 +179,12 @@ func (h *Host) tick() {
 //go:norace
 func hostSyncHook(kind int) {
 	h := curHost
-	if kind != 0 || h == nil {
+	if h == nil {
 		return
 	}
 	for _, w := range h.wd {
-		if w != nil && w.armed && w.gid == curGoroutineID() {
-			w.atLockAcquisition()
+		if w != nil && w.armed > 0 && w.gid == curGoroutineID() {
+			w.atSyncPoint(kind)
 			return
 		}
 	}
@@ -291,14 +292,15 @@ func describe(v goja.Value) string {
 }
 
 func (h *Host) compile(name, src string) (*goja.Program, error) {
-	if p, ok := h.progs[src]; ok {
+	key := name + "\x00" + src // the name is part of rendered stack traces: never hand out a program compiled under another name
+	if p, ok := h.progs[key]; ok {
 		return p, nil
 	}
 	p, err := goja.Compile(name, src, false)
 	if err != nil {
 		return nil, err
 	}
-	h.progs[src] = p
+	h.progs[key] = p
 	return p, nil
 }
 
